@@ -173,10 +173,12 @@ def run(ctx):
     it2.hooks[WB + "stress._total_stress_point"] = lambda _it, fn, a, k, e, n: (P("stress_magnitude"), P("new_direction"))
     it2.call_function(f, [P("bulk"), E, P("u10_guess"), P("direction"), DEPTH, GRID, PAR, windfn, tailfn, P("dEdt"), True], {}, None)
     loops = [L for L in it2.loops if L.func == f.qualname]
-    if len(loops) != 1 or "direction" not in loops[0].carried:
+    # the iterated direction is the loop-carried local that starts as the caller's direction guess (whatever it is called)
+    dcar = [v for v in (loops[0].carried.values() if len(loops) == 1 else []) if v[1] is not None and T.to_term(v[0]) == P("direction")]
+    if len(loops) != 1 or len(dcar) != 1:
         ctx.unsure("R09.2", "_u10_from_bulk_rate_point[direction iteration]", "direction iteration loop not found", f.loc())
     else:
-        orig, sym, fin = loops[0].carried["direction"]
+        orig, sym, fin = dcar[0]
         fin = T.to_term(fin).xreplace({sym: P("direction")}) if sym is not None else T.to_term(fin)
         check_term(ctx, "_u10_from_bulk_rate_point[direction update]", fin, ANG(1), loops[0].loc, want_unit=DEG)
     ctx.absorb(it)
